@@ -50,11 +50,13 @@ type PipeCase struct {
 	// CloneSwaps: instead of Recs, the compared trees are clones of the indexed reference with two tip names exchanged
 	CloneSwaps [][2]int `json:"cloneswaps,omitempty"`
 	// ShareObjects (producer feed): records with the same text are the same *tree.Tree object
-	ShareObjects bool      `json:"shareobjects,omitempty"`
-	Recs2        []Rec     `json:"recs2,omitempty"` // the same collection in another order and presentation (metamorphic second run)
-	BufSz        int       `json:"bufsz"`
-	Chunk        int       `json:"chunk"`
-	Sched        SchedCase `json:"sched"`
+	ShareObjects bool `json:"shareobjects,omitempty"`
+	// PriorRun (fbp, tbe): the other support has been computed on the same reference object first (a history of two calls)
+	PriorRun bool      `json:"priorrun,omitempty"`
+	Recs2    []Rec     `json:"recs2,omitempty"` // the same collection in another order and presentation (metamorphic second run)
+	BufSz    int       `json:"bufsz"`
+	Chunk    int       `json:"chunk"`
+	Sched    SchedCase `json:"sched"`
 }
 
 type CmpRec struct {
@@ -254,6 +256,16 @@ func runPipeT(t *testing.T, pc *PipeCase, cpus int, sc SchedCase, maxSteps, tota
 			}
 		case "fbp":
 			ref := mustParse(pc.Ref)
+			if pc.PriorRun {
+				if err := ref.ReinitIndexes(); err != nil {
+					panic("harness: " + err.Error())
+				}
+				prior := *pc
+				prior.Feed = "chan"
+				if _, err := support.TBE(ref, prior.feed(), 1, false, false, false, 0.3, nil, support.NewSupporter()); err != nil {
+					panic("harness: prior TBE run fails: " + err.Error())
+				}
+			}
 			sup := support.NewSupporter()
 			pr.Err = support.FBP(ref, in, cpus, sup)
 			pr.Progress = sup.Progress()
@@ -264,6 +276,13 @@ func runPipeT(t *testing.T, pc *PipeCase, cpus int, sc SchedCase, maxSteps, tota
 			if err := ref.ReinitIndexes(); err != nil {
 				pr.Err = err
 				break
+			}
+			if pc.PriorRun {
+				prior := *pc
+				prior.Feed = "chan"
+				if err := support.FBP(ref, prior.feed(), 1, support.NewSupporter()); err != nil {
+					panic("harness: prior FBP run fails: " + err.Error())
+				}
 			}
 			var logf *os.File
 			if pc.AvgTaxa || pc.PerBranch {
@@ -592,6 +611,11 @@ func genPipe(rt *rapid.T, tier string, op pipeGenOpts) *PipeCase {
 				// adversarial variant: two names exchanged for two others with the same concatenation (A,BC -> AB,C)
 				text = replaceTip(replaceTip(src.Newick(), a[0], "#1#"), a[1], "#2#")
 				text = strings.Replace(strings.Replace(text, "#1#", b[0], 1), "#2#", b[1], 1)
+			} else if rapid.IntRange(0, 3).Draw(rt, "firstname") == 0 {
+				// the name that sorts first replaced by another one that sorts first too: every other name keeps its rank
+				st := append([]string(nil), tx...)
+				sort.Strings(st)
+				text = replaceTip(src.Newick(), st[0], "!"+st[0])
 			}
 		case "extra":
 			victim := tx[r.Intn(len(tx))]
@@ -629,6 +653,9 @@ func genPipe(rt *rapid.T, tier string, op pipeGenOpts) *PipeCase {
 		}
 		rec := Rec{Text: text, Fault: kind}
 		pc.Recs = append(pc.Recs[:pos:pos], append([]Rec{rec}, pc.Recs[pos:]...)...)
+	}
+	if _, fk := pc.hasFault(); fk == "" && len(pc.Recs) > 0 && (pc.Algo == "fbp" || pc.Algo == "tbe") {
+		pc.PriorRun = rapid.IntRange(0, 4).Draw(rt, "priorrun") == 0
 	}
 	pc.Sched = genSched(rt)
 	return pc
